@@ -351,6 +351,17 @@ class BaseSubscription:
             t.duration * 1000,
         )
         if matched:
+            # the output validator applies to live events as well as stored ones
+            check_output = self.storage.check_output
+            if check_output and not check_output(
+                event,
+                {
+                    "config": Config,
+                    "client_id": self.client_id,
+                    "auth_token": self.auth_token,
+                },
+            ):
+                return
             await self.queue.put((self.sub_id, event))
 
     def check_event(self, event: Event, filters: list):
